@@ -134,7 +134,7 @@ func TestC36(t *testing.T) {
 	keys := []string{"a", "b", "c", "d", "e", "f"}
 
 	// (a) sequential
-	seqN := mon.Pick(10000, 100000)
+	seqN := mon.Pick(10000, 1000000)
 	for i := 0; i < seqN; i++ {
 		rg := Sub("C36seq", i)
 		capacity := 1 + rg.Intn(5)
@@ -199,7 +199,7 @@ func TestC36(t *testing.T) {
 	r.Count("sequential_histories", int64(seqN))
 
 	// (b) concurrent + porcupine
-	concN := mon.Pick(1200, 20000)
+	concN := mon.Pick(1200, 100000)
 	var unknown, illegal int64
 	var clock atomic.Int64
 	for i := 0; i < concN; i++ {
